@@ -38,6 +38,11 @@ pub struct Req {
     /// an `Access-Control-Request-Method` header (a preflight-shaped request)
     #[serde(default)]
     pub acrm: Option<String>,
+    /// (wave 14) just before this request, on the same connection, a request that carries a configured pair but is refused
+    /// by the parser (a header value that is not UTF-8, behind the Authorization line): nothing of it may still be
+    /// there when this request is judged
+    #[serde(default)]
+    pub after_refused: bool,
 }
 #[derive(Clone, Debug, Serialize, Deserialize)]
 pub struct Scenario {
@@ -200,7 +205,7 @@ pub fn generate(_cfg: &RunCfg, _out: &mut Outcome) -> Scenario {
         } else {
             ("", None)
         };
-        reqs.push(Req { authorization: auth, kind: kind.to_string(), realm: 0, method: method.to_string(), acrm });
+        reqs.push(Req { authorization: auth, kind: kind.to_string(), realm: 0, method: method.to_string(), acrm, after_refused: false });
     }
     // two configurations in one process: what one of them admitted must mean nothing to the other
     let second = if t::chance(1, 3) { Some((format!("two-{}", t::string(b"abc", 0, 4)), gen_part(true))) } else { None };
@@ -212,7 +217,7 @@ pub fn generate(_cfg: &RunCfg, _out: &mut Outcome) -> Scenario {
             match t::weighted(&[3, 2, 2]) {
                 0 => {}
                 // the second realm's own credentials, at the second realm (admitted) ...
-                1 => r = Req { authorization: Some(format!("Basic {}", STANDARD.encode(format!("{u2}:{p2}"))).into_bytes()), kind: "second-correct".into(), realm: 1, method: r.method.clone(), acrm: r.acrm.clone() },
+                1 => r = Req { authorization: Some(format!("Basic {}", STANDARD.encode(format!("{u2}:{p2}"))).into_bytes()), kind: "second-correct".into(), realm: 1, method: r.method.clone(), acrm: r.acrm.clone(), after_refused: false },
                 // ... and whatever this request carried, presented to the second realm instead
                 _ => r.realm = 1,
             }
@@ -223,6 +228,11 @@ pub fn generate(_cfg: &RunCfg, _out: &mut Outcome) -> Scenario {
             }
         }
         reqs = out;
+    }
+    for r in reqs.iter_mut() {
+        if r.realm == 0 && t::chance(1, 6) {
+            r.after_refused = true;
+        }
     }
     let placement = t::draw(3) as u8;
     for r in reqs.iter_mut() {
@@ -312,6 +322,7 @@ fn execute(sc: &Scenario, out: &mut Outcome) {
     let obs: Rc<RefCell<Vec<Result<Resp, RecvErr>>>> = Rc::new(RefCell::new(Vec::new()));
     let o = obs.clone();
     let reqs = sc.reqs.clone();
+    let pairs0 = sc.pairs.clone();
     let two_realms = sc.second.is_some();
     if two_realms {
         out.probe("c13.two_configurations");
@@ -323,6 +334,26 @@ fn execute(sc: &Scenario, out: &mut Outcome) {
                 match Client::connect(rt::ADDR, ConnCfg::default()).await {
                     Ok(x) => c = Some(x),
                     Err(_) => return,
+                }
+            }
+            if r.after_refused {
+                let cl = c.as_mut().unwrap();
+                let (u, pw) = &pairs0[0];
+                let path = if two_realms { "/r1/private" } else { "/private" };
+                let mut bytes = format!("GET {path} HTTP/1.1\r\nHost: s\r\nAuthorization: Basic {}\r\nX-Client-Name: caf", STANDARD.encode(format!("{u}:{pw}"))).into_bytes();
+                bytes.extend_from_slice(b"\xe9\r\n\r\n");
+                if bytes.len() < 1000 {
+                    cl.send(&bytes, 0);
+                    simcore::with(|w| w.count("c13.refused_request_with_a_pair_first"));
+                    if cl.recv(false, DEFAULT_TIMEOUT).await.is_err() {
+                        c = None;
+                    }
+                }
+                if c.is_none() {
+                    match Client::connect(rt::ADDR, ConnCfg::default()).await {
+                        Ok(x) => c = Some(x),
+                        Err(_) => return,
+                    }
                 }
             }
             let cl = c.as_mut().unwrap();
